@@ -500,6 +500,25 @@ fn introducer(l: &Lexed, open: usize) -> String {
                         | "else"
                         | "where"
                 ) {
+                    if t == "for" {
+                        // `impl A for B {`: keep looking for the `impl`
+                        let mut j = i;
+                        let mut n = 0;
+                        while j > 0 && n < 30 {
+                            j -= 1;
+                            if l.els[j].depth != d {
+                                continue;
+                            }
+                            n += 1;
+                            let tj = l.text(j);
+                            if tj == ";" || tj == "}" {
+                                break;
+                            }
+                            if l.els[j].k == K::Ident && tj == "impl" {
+                                return format!("impl{delim}");
+                            }
+                        }
+                    }
                     // `let x = S { .. }` is a struct literal, not a "let block"
                     if (t == "let" || t == "const") && delim == "{" {
                         return "expr{".into();
@@ -970,7 +989,7 @@ pub enum Node {
 
 impl Node {
     fn is_punct(&self, p: &str) -> bool {
-        matches!(self, Node::Tok { k: K::Punct, text, .. } if text == p)
+        matches!(self, Node::Tok { k: K::Punct, text, .. } if text.trim_end_matches('~') == p)
     }
     fn is_ident(&self, p: &str) -> bool {
         matches!(self, Node::Tok { k: K::Ident, text, .. } if text == p)
@@ -1035,14 +1054,49 @@ pub struct NTok {
 }
 
 /// Two-punct operators whose meaning differs from the two puncts written apart. `>` `>` is left
-/// out on purpose (closing two generic argument lists: `Vec<Vec<u8> >` == `Vec<Vec<u8>>`).
+/// out on purpose (closing two generic argument lists: `Vec<Vec<u8> >` == `Vec<Vec<u8>>`), and so
+/// is `>` `=` (`x: Map<u64, bool>= …` is accepted by the parser as `>` followed by `=`).
 const COMPOUNDS: &[(&str, &str)] = &[
-    (":", ":"), ("-", ">"), ("=", ">"), ("=", "="), ("!", "="), ("<", "="), (">", "="), ("&", "&"), ("|", "|"),
+    (":", ":"), ("-", ">"), ("=", ">"), ("=", "="), ("!", "="), ("<", "="), ("&", "&"), ("|", "|"),
     ("<", "<"), ("+", "="), ("-", "="), ("*", "="), ("/", "="), (".", "."),
 ];
 
 fn top_level_commas(items: &[Node]) -> usize {
     items.iter().filter(|n| n.is_punct(",")).count()
+}
+
+/// commas outside `<…>` (for types: `(Foo<u64, u64>)` is a parenthesised single type)
+fn commas_outside_angles(items: &[Node]) -> usize {
+    let mut depth = 0i32;
+    let mut c = 0;
+    for n in items {
+        if n.is_punct("<") {
+            depth += 1;
+        } else if n.is_punct(">") {
+            depth -= 1;
+        } else if n.is_punct(",") && depth <= 0 {
+            c += 1;
+        }
+    }
+    c
+}
+
+/// Is the paren group at `items[i]` an argument / parameter list (then a trailing comma is always
+/// cosmetic) rather than a tuple (where `(a,)` differs from `(a)`)?
+fn is_arg_list(items: &[Node], i: usize) -> bool {
+    if i == 0 {
+        return false;
+    }
+    match &items[i - 1] {
+        Node::Tok { k: K::Ident, text, .. } => !matches!(
+            text.as_str(),
+            "return" | "in" | "let" | "match" | "if" | "while" | "else" | "mut" | "ref" | "as" | "for" | "break" | "continue" | "where"
+        ),
+        // generic call `f::<T>(a)`, but not `-> (a,)`
+        p if p.is_punct(">") => !(i >= 2 && items[i - 2].is_punct("-")),
+        Node::Group { .. } => true, // `f(a)(b)`, `a[0](b)`
+        _ => false,
+    }
 }
 
 /// N4 helper: tokens that may appear in a type
@@ -1082,6 +1136,10 @@ fn type_like(items: &[Node]) -> bool {
 }
 
 fn emit(n: &Node, out: &mut Vec<NTok>) {
+    emit2(n, false, out)
+}
+
+fn emit2(n: &Node, arg_list: bool, out: &mut Vec<NTok>) {
     match n {
         Node::Tok { text, idx, .. } => out.push(NTok {
             text: text.clone(),
@@ -1092,7 +1150,7 @@ fn emit(n: &Node, out: &mut Vec<NTok>) {
                 text: open.to_string(),
                 idx: *idx_open,
             });
-            norm_stream(items, Some(*open), false, out);
+            norm_stream(items, Some(*open), arg_list, out);
             let close = match open {
                 '(' => ")",
                 '[' => "]",
@@ -1164,7 +1222,7 @@ fn norm_use_node(n: &Node, out: &mut Vec<NTok>) {
 ///   (`single_import_without_braces`).
 /// * N4 parentheses around a single type: the parser itself drops them (`sway-parse/src/ty/mod.rs`:
 ///   "only patterns of (ty) are parsed as ty"), so the formatter cannot print them.
-fn norm_stream(items: &[Node], enclosing: Option<char>, _in_use: bool, out: &mut Vec<NTok>) {
+fn norm_stream(items: &[Node], enclosing: Option<char>, arg_list: bool, out: &mut Vec<NTok>) {
     let n = items.len();
     let mut in_where = false;
     let mut in_use = false;
@@ -1191,7 +1249,7 @@ fn norm_stream(items: &[Node], enclosing: Option<char>, _in_use: bool, out: &mut
             let last = i + 1 == n;
             // N1
             if last && enclosing.is_some() {
-                let one_tuple = enclosing == Some('(') && top_level_commas(items) == 1;
+                let one_tuple = enclosing == Some('(') && !arg_list && top_level_commas(items) == 1;
                 if !one_tuple {
                     i += 1;
                     continue;
@@ -1226,45 +1284,50 @@ fn norm_stream(items: &[Node], enclosing: Option<char>, _in_use: bool, out: &mut
                 let q = &items[i + 1];
                 q.is_punct(",") || q.is_punct(">") || q.is_group('{') || q.is_punct(";") || q.is_punct("=") || q.is_ident("where") || q.is_ident("for")
             };
-            let single = top_level_commas(inner) == 0 && !inner.is_empty();
+            let single = commas_outside_angles(inner) == 0 && !inner.is_empty();
             if prev_ok && next_ok && single && type_like(inner) {
                 norm_stream(inner, None, false, out);
                 i += 1;
                 continue;
             }
         }
-        // compound puncts
-        if let Node::Tok { k: K::Punct, text, idx, joint } = it {
-            let mut t = text.clone();
-            if *joint && i + 1 < n {
-                if let Node::Tok { k: K::Punct, text: t2, .. } = &items[i + 1] {
-                    if COMPOUNDS.contains(&(text.as_str(), t2.as_str())) {
-                        t.push('~'); // "glued to the next punct"
-                    }
-                }
-            }
-            out.push(NTok { text: t, idx: *idx });
-            i += 1;
-            continue;
-        }
         if let Node::Tok { k: K::Doc, text, idx, .. } = it {
             out.push(NTok { text: text.trim_end().to_string(), idx: *idx });
             i += 1;
             continue;
         }
-        emit(it, out);
+        emit2(it, it.is_group('(') && is_arg_list(items, i), out);
         i += 1;
     }
 }
 
+/// mark a punct that is glued to the next punct and forms a two-punct operator with it (`:~ :`)
+fn mark_compounds(items: &mut [Node]) {
+    let n = items.len();
+    for i in 0..n {
+        let glue = match (&items[i], items.get(i + 1)) {
+            (Node::Tok { k: K::Punct, text, joint: true, .. }, Some(Node::Tok { k: K::Punct, text: t2, .. })) => {
+                COMPOUNDS.contains(&(text.as_str(), t2.as_str()))
+            }
+            _ => false,
+        };
+        match &mut items[i] {
+            Node::Tok { text, .. } if glue => text.push('~'),
+            Node::Group { items, .. } => mark_compounds(items),
+            _ => {}
+        }
+    }
+}
+
 pub fn normalised(l: &Lexed) -> Vec<NTok> {
-    let t = tree(l);
+    let mut t = tree(l);
+    mark_compounds(&mut t);
     let mut out = vec![];
     norm_stream(&t, None, false, &mut out);
     out
 }
 
-/// Result of comparing the tokens of an input with those of the formatter's output.
+/// One differing hunk between the normalised input tokens and the normalised output tokens.
 #[derive(Clone, Debug)]
 pub struct TokDiff {
     /// index of the first differing token in the normalised input sequence
@@ -1273,53 +1336,144 @@ pub struct TokDiff {
     pub added: Vec<NTok>,
 }
 
-pub fn token_diff(x: &[NTok], a: &[NTok]) -> Option<TokDiff> {
+/// Greedy hunk diff: at a mismatch, find the nearest re-synchronisation point (smallest di+dj such
+/// that 3 consecutive tokens agree again, or both sequences end) and report the skipped tokens as
+/// one hunk. Exact enough for classification; `None`-free: an empty result means "equal".
+pub fn token_hunks(x: &[NTok], a: &[NTok]) -> Vec<TokDiff> {
+    const ANCHOR: usize = 3;
+    const MAXD: usize = 400;
+    let agree = |i: usize, j: usize| -> bool {
+        // ANCHOR tokens agree from (i, j), or both sequences end together within the anchor
+        let mut k = 0;
+        while k < ANCHOR {
+            match (x.get(i + k), a.get(j + k)) {
+                (Some(p), Some(q)) if p.text == q.text => k += 1,
+                (None, None) => return true,
+                _ => return false,
+            }
+        }
+        true
+    };
+    let mut out = vec![];
+    let (mut i, mut j) = (0, 0);
+    loop {
+        while i < x.len() && j < a.len() && x[i].text == a[j].text {
+            i += 1;
+            j += 1;
+        }
+        if i >= x.len() && j >= a.len() {
+            break;
+        }
+        let mut found = None;
+        'search: for d in 1..=MAXD {
+            for di in 0..=d {
+                let dj = d - di;
+                if i + di > x.len() || j + dj > a.len() {
+                    continue;
+                }
+                if agree(i + di, j + dj) {
+                    found = Some((di, dj));
+                    break 'search;
+                }
+            }
+        }
+        let (di, dj) = found.unwrap_or((x.len() - i, a.len() - j));
+        out.push(TokDiff {
+            at: i,
+            removed: x[i..i + di].to_vec(),
+            added: a[j..j + dj].to_vec(),
+        });
+        i += di;
+        j += dj;
+        if found.is_none() {
+            break;
+        }
+    }
+    out
+}
+
+/// abstract a token list: keywords/puncts verbatim, identifiers `id`, literals by kind, an
+/// attribute `# [ … ]` collapsed to `#[…]`; at most `max` entries
+fn abs_list(l: &Lexed, toks: &[NTok], max: usize) -> String {
+    let mut v: Vec<String> = vec![];
     let mut i = 0;
-    while i < x.len() && i < a.len() && x[i].text == a[i].text {
+    while i < toks.len() && v.len() < max {
+        let t = &toks[i];
+        if t.text == "#" && toks.get(i + 1).map(|t| t.text == "[").unwrap_or(false) {
+            // skip to the matching `]`
+            let mut depth = 0;
+            let mut j = i + 1;
+            while j < toks.len() {
+                if toks[j].text == "[" {
+                    depth += 1;
+                } else if toks[j].text == "]" {
+                    depth -= 1;
+                    if depth == 0 {
+                        break;
+                    }
+                }
+                j += 1;
+            }
+            v.push("#[…]".into());
+            i = j + 1;
+            continue;
+        }
+        let own = l.els.get(t.idx).map(|e| &l.src[e.start..e.end] == t.text || e.k == K::Doc).unwrap_or(false);
+        v.push(if own { abs_el(l, t.idx) } else { t.text.clone() });
         i += 1;
     }
-    if i == x.len() && i == a.len() {
-        return None;
+    if i < toks.len() {
+        v.push("…".into());
     }
-    let mut xe = x.len();
-    let mut ae = a.len();
-    while xe > i && ae > i && x[xe - 1].text == a[ae - 1].text {
-        xe -= 1;
-        ae -= 1;
+    // collapse runs of the same abstract token (`#[…] #[…] ///` == `#[…]+ ///`)
+    let mut w: Vec<String> = vec![];
+    for t in v {
+        match w.last_mut() {
+            Some(last) if last.trim_end_matches('+') == t => {
+                if !last.ends_with('+') {
+                    last.push('+');
+                }
+            }
+            _ => w.push(t),
+        }
     }
-    Some(TokDiff {
-        at: i,
-        removed: x[i..xe].to_vec(),
-        added: a[i..ae].to_vec(),
-    })
+    w.join(" ")
 }
 
-fn abs_ntok(l: &Lexed, t: &NTok) -> String {
-    let a = abs_el(l, t.idx);
-    // normalised texts that are not the element's own text (e.g. `:~`) keep their own form
-    if l.text(t.idx) == t.text || l.els[t.idx].k == K::Doc {
-        a
-    } else {
-        t.text.clone()
-    }
-}
-
-/// class key for a token difference: construct at the first differing input token + abstracted
-/// removed/added tokens (first 5 of each)
-pub fn classify_token_diff(x: &Lexed, a: &Lexed, nx: &[NTok], d: &TokDiff) -> String {
+/// class key for one token hunk: (construct at the hunk in the input, abstracted removed tokens,
+/// abstracted added tokens)
+pub fn classify_token_hunk(x: &Lexed, a: &Lexed, nx: &[NTok], d: &TokDiff) -> String {
     let pos = if d.at < nx.len() { nx[d.at].idx } else { x.els.len() };
     let ctx = context_chain(x, pos, 1);
-    // token split by a misplaced newline: one input token == two output tokens glued
+    // token split by a misplaced newline: one input token == two output tokens glued; a doc comment
+    // `///…` cut after its first `/`; a two-punct operator pulled apart (`:~` vs `:`)
     if let (Some(r), true) = (d.removed.first(), d.added.len() >= 2) {
         let glued = format!("{}{}", d.added[0].text.trim_end_matches('~'), d.added[1].text.trim_end_matches('~'));
         if r.text.trim_end_matches('~') == glued && x.els[r.idx].k != K::Punct {
-            return format!("token-split|{}", abs_el(x, r.idx));
+            return "token-split-by-inserted-whitespace".to_string();
         }
     }
-    let rem: Vec<String> = d.removed.iter().take(5).map(|t| abs_ntok(x, t)).collect();
-    let add: Vec<String> = d.added.iter().take(5).map(|t| abs_ntok(a, t)).collect();
-    let prev = if d.at > 0 && d.at - 1 < nx.len() { abs_ntok(x, &nx[d.at - 1]) } else { "^".into() };
-    format!("{ctx}|after {prev}|-[{}]|+[{}]", rem.join(" "), add.join(" "))
+    if let (Some(r), Some(g)) = (d.removed.first(), d.added.first()) {
+        if x.els[r.idx].k == K::Doc && g.text == "/" {
+            return "token-split-by-inserted-whitespace".to_string();
+        }
+        if d.removed.len() == 1 && d.added.len() == 1 && r.text.ends_with('~') && r.text.trim_end_matches('~') == g.text {
+            return "token-split-by-inserted-whitespace".to_string();
+        }
+    }
+    // literal rewritten
+    if d.removed.len() == 1 && d.added.len() == 1 && x.els[d.removed[0].idx].k == K::Lit && a.els[d.added[0].idx].k == K::Lit {
+        let (r, g) = (&d.removed[0].text, &d.added[0].text);
+        let shape = if r.contains('\\') && !g.contains('\\') {
+            "escape-sequence-replaced-by-raw-char"
+        } else if r.to_lowercase() == g.to_lowercase() {
+            "case-changed"
+        } else {
+            "text-changed"
+        };
+        return format!("literal-rewritten|{}|{shape}", abs_el(x, d.removed[0].idx));
+    }
+    format!("{ctx}|-[{}]|+[{}]", abs_list(x, &d.removed, 3), abs_list(a, &d.added, 3))
 }
 
 /// Difference of two ordered comment lists: (lost, gained) as indices into x / a comment lists,
@@ -1367,4 +1521,1167 @@ pub fn neighbours(l: &Lexed, i: usize) -> (String, String) {
         q += 1;
     }
     (abs_or(l, p), abs_or(l, q as isize))
+}
+
+// ---------------------------------------------------------------------------------------------
+// C18 classifier: what differs between pass 1 and pass 2
+
+fn ws_class(w: &str) -> String {
+    let nl = w.matches('\n').count();
+    if nl == 0 {
+        if w.is_empty() {
+            "0".into()
+        } else if w.contains('\t') {
+            "t".into()
+        } else if w.len() == 1 {
+            "s".into()
+        } else {
+            "ss".into()
+        }
+    } else if nl == 1 {
+        "n".into()
+    } else {
+        "nn".into()
+    }
+}
+
+const BINOPS: &[&str] = &["&", "|", "=", "+", "-", "*", "/", "%", "<", ">", "^", "!"];
+
+/// Texts of the gaps of a lexed text (n+1 gaps for n elements).
+fn gaps(l: &Lexed) -> Vec<&str> {
+    (0..n_gaps(l))
+        .map(|g| {
+            let (s, e) = gap_bounds(l, g);
+            &l.src[s..e]
+        })
+        .collect()
+}
+
+/// Class keys for a pass-1 text `a` and a different pass-2 text `b`.
+pub fn classify_nonidempotent(x: &str, a: &str, b: &str, aligned: bool) -> Vec<String> {
+    let (Some(la), Some(lb)) = (lex(a), lex(b)) else {
+        return vec!["nonidempotent|pass-output-unlexable".into()];
+    };
+    if la.sig() != lb.sig() {
+        // tokens or comments changed between the passes
+        let (na, nb) = (normalised(&la), normalised(&lb));
+        let mut keys: Vec<String> = token_hunks(&na, &nb)
+            .iter()
+            .map(|d| format!("nonidempotent|tokens-changed-on-pass2|{}", classify_token_hunk(&la, &lb, &na, d)))
+            .collect();
+        let (ca, cb) = (la.comments(), lb.comments());
+        if token_hunks(&na, &nb).iter().any(|d| {
+            d.removed.len() == 1
+                && d.added.len() == 1
+                && la.els[d.removed[0].idx].k == K::Doc
+                && lb.els[d.added[0].idx].k == K::Doc
+                && d.added[0].text.starts_with(d.removed[0].text.as_str())
+        }) {
+            return vec!["nonidempotent|block-comment-appended-to-preceding-line-comment-on-pass2|doc-comment".into()];
+        }
+        if ca != cb {
+            let (lost, gained) = comment_diff(&ca, &cb);
+            if swallowed_by_line_comment(&ca, &cb, &lost, &gained) {
+                return vec!["nonidempotent|block-comment-appended-to-preceding-line-comment-on-pass2".into()];
+            }
+            let ci = comment_idxs(&la);
+            let cj = comment_idxs(&lb);
+            for i in lost {
+                keys.push(format!("nonidempotent|comment-lost-on-pass2|{}", comment_slot(&la, ci[i])));
+            }
+            for j in gained {
+                keys.push(format!("nonidempotent|comment-gained-on-pass2|{}", comment_slot(&lb, cj[j])));
+            }
+        }
+        if keys.is_empty() {
+            let raw = |l: &Lexed| -> Vec<NTok> {
+                (0..l.els.len())
+                    .filter(|&i| l.els[i].k != K::Comment)
+                    .map(|i| NTok { text: l.text(i).to_string(), idx: i })
+                    .collect()
+            };
+            let (ra, rb) = (raw(&la), raw(&lb));
+            let hs = token_hunks(&ra, &rb);
+            if let Some(d) = hs.first() {
+                // same after normalisation: a cosmetic token (trailing comma, braces) toggles between passes
+                let pos = if d.at < ra.len() { ra[d.at].idx } else { la.els.len().saturating_sub(1) };
+                keys.push(format!(
+                    "nonidempotent|cosmetic-token-toggles|{}|-[{}]|+[{}]",
+                    innermost(&la, pos),
+                    abs_list(&la, &d.removed, 3),
+                    abs_list(&lb, &d.added, 3)
+                ));
+            } else {
+                // same tokens, same comments: a comment changes place relative to the tokens
+                let (sa, sb) = (la.sig(), lb.sig());
+                let first = sa.iter().zip(sb.iter()).position(|(p, q)| p != q).unwrap_or(0);
+                let (ea, eb) = (&la.els[first.min(la.els.len() - 1)], &lb.els[first.min(lb.els.len() - 1)]);
+                let crossed = if ea.k == K::Comment { abs_el(&lb, first) } else { abs_el(&la, first) };
+                let dir = if ea.k == K::Comment { "later" } else if eb.k == K::Comment { "earlier" } else { "?" };
+                keys.push(format!("nonidempotent|comment-moves-across-token-on-pass2|{dir}|across {crossed}"));
+            }
+        }
+        keys.sort();
+        keys.dedup();
+        return keys;
+    }
+    // same elements: only whitespace differs. Group the differing gaps into hunks.
+    let (ga, gb) = (gaps(&la), gaps(&lb));
+    let diff: Vec<usize> = (0..ga.len()).filter(|&g| ga[g] != gb[g]).collect();
+    // (a) a newline that pass 1 put in the middle of a line (no indentation after it) and pass 2
+    // removes again: `handle_newlines` inserted a newline sequence at a drifted offset. Everything
+    // else that differs in such a case is a consequence of the same drift, so the case gets one key,
+    // built from the trigger (what made the unformatted and formatted leaf spans disagree).
+    // The same mechanism can also drop a blank line at a place where the next pass does not record
+    // one (not after `;` / `}`): pass 1 has a blank line that pass 2 removes.
+    let is_c = |l: &Lexed, i: isize| i >= 0 && (i as usize) < l.els.len() && l.els[i as usize].k == K::Comment;
+    let stray = diff.iter().find(|&&g| is_stray_newline(&la, g, ga[g]) && !gb[g].contains('\n')).copied();
+    let blank = diff
+        .iter()
+        .find(|&&g| ws_class(ga[g]) == "nn" && ws_class(gb[g]) != "nn" && !is_c(&la, g as isize) && !is_c(&la, g as isize - 1))
+        .copied();
+    if let Some(g) = stray.or(blank) {
+        let trig = drift_trigger(x, a, aligned);
+        let at = if trig == "none" {
+            format!(
+                "|{}|{}^{}|{}",
+                innermost(&la, g.min(la.els.len().saturating_sub(1))),
+                abs_or(&la, g as isize - 1),
+                abs_or(&la, g as isize),
+                if stray.is_some() { "mid-line" } else { "blank-line" }
+            )
+        } else {
+            String::new()
+        };
+        return vec![format!("nonidempotent|misplaced-newline-sequence|trigger={trig}{at}")];
+    }
+    let mut keys = vec![];
+    let mut last: Option<usize> = None;
+    for &g in &diff {
+        let new_hunk = match last {
+            None => true,
+            Some(p) => g - p > 8,
+        };
+        last = Some(g);
+        if !new_hunk {
+            continue;
+        }
+        keys.push(format!("nonidempotent|{}", ws_hunk_key(&la, g, ga[g], gb[g])));
+    }
+    keys.sort();
+    keys.dedup();
+    keys
+}
+
+/// pass-1 gap `w` before element `g` holds a newline that is not followed by a plausible
+/// indentation: exactly one space, or nothing although the next element is nested and is not a
+/// closing delimiter; at top level: nothing although the previous element does not end an item
+fn is_stray_newline(l: &Lexed, g: usize, w: &str) -> bool {
+    if !w.contains('\n') || g == 0 || g >= l.els.len() {
+        return false;
+    }
+    let indent = w.rsplit('\n').next().unwrap_or("");
+    if indent == " " {
+        return true;
+    }
+    if !indent.is_empty() {
+        return false;
+    }
+    let next = &l.els[g];
+    let prev = &l.els[g - 1];
+    if next.k == K::Comment || prev.k == K::Comment || prev.k == K::Doc {
+        return false;
+    }
+    if next.depth > 0 {
+        return next.k != K::Close;
+    }
+    // top level: a newline is expected after `;`, `}` and `]` (attributes)
+    let pt = l.text(g - 1);
+    !(pt == ";" || pt == "}" || pt == "]")
+}
+
+/// What made the leaf spans of input and pass-1 output disagree: the first raw token hunk that is
+/// not itself a token split; `comment` when tokens agree and the input has comments; else `none`.
+fn drift_trigger(x: &str, a: &str, aligned: bool) -> String {
+    let (Some(lx), Some(la)) = (lex(x), lex(a)) else { return "unlexable".into() };
+    {
+        let (cx, ca) = (lx.comments(), la.comments());
+        if cx != ca {
+            let (lost, gained) = comment_diff(&cx, &ca);
+            if swallowed_by_line_comment(&cx, &ca, &lost, &gained) {
+                return "block-comment-appended-to-preceding-line-comment".into();
+            }
+        }
+    }
+    let raw = |l: &Lexed| -> Vec<NTok> {
+        (0..l.els.len())
+            .filter(|&i| l.els[i].k != K::Comment)
+            .map(|i| NTok { text: l.text(i).to_string(), idx: i })
+            .collect()
+    };
+    let (rx, ra) = (raw(&lx), raw(&la));
+    for d in token_hunks(&rx, &ra) {
+        if let (Some(r), true) = (d.removed.first(), d.added.len() >= 2) {
+            if r.text == format!("{}{}", d.added[0].text, d.added[1].text) {
+                continue;
+            }
+        }
+        if let (Some(r), Some(g)) = (d.removed.first(), d.added.first()) {
+            if lx.els[r.idx].k == K::Doc && g.text == "/" {
+                continue;
+            }
+        }
+        let pos = if d.at < rx.len() { rx[d.at].idx } else { lx.els.len().saturating_sub(1) };
+        let (r, g) = (abs_list(&lx, &d.removed, 3), abs_list(&la, &d.added, 3));
+        let ctx = innermost(&lx, pos);
+        if aligned && matches!(ctx.as_str(), "struct{" | "enum{" | "storage{" | "configurable{" | "struct-head" | "enum-head") {
+            return "field-alignment-on".into();
+        }
+        if r.is_empty() && g == "," {
+            return "trailing-comma-added".into();
+        }
+        if lx.els[d.removed.first().map(|t| t.idx).unwrap_or(0)].k == K::Doc && d.removed.len() == 1 && d.added.len() == 1 {
+            return "block-comment-appended-to-preceding-line-comment|doc-comment".into();
+        }
+        if r == "," && g.is_empty() {
+            return "trailing-comma-removed".into();
+        }
+        if ctx == "use-head" && r.starts_with('{') {
+            return "single-import-braces-removed".into();
+        }
+        return format!("{ctx}:-[{r}]+[{g}]");
+    }
+    if lx.els.iter().any(|e| e.k == K::Comment) {
+        "comment".into()
+    } else {
+        "none".into()
+    }
+}
+
+/// innermost enclosing construct of element i
+pub fn innermost(l: &Lexed, i: usize) -> String {
+    let c = context_chain(l, i, 1);
+    c.rsplit('>').next().unwrap_or("top").to_string()
+}
+
+/// key of a whitespace hunk whose first differing gap is `g` (gap before element g)
+fn ws_hunk_key(l: &Lexed, g: usize, wa: &str, wb: &str) -> String {
+    let prev = abs_or(l, g as isize - 1);
+    let next = abs_or(l, g as isize);
+    let (ca, cb) = (ws_class(wa), ws_class(wb));
+    let shape = if ca == cb && ca.starts_with('n') {
+        let ia = wa.rsplit('\n').next().unwrap_or("").len();
+        let ib = wb.rsplit('\n').next().unwrap_or("").len();
+        format!("{ca}→{cb}:indent{}", if ib > ia { "+" } else { "-" })
+    } else if ca == cb {
+        format!("{ca}→{cb}:{}", if wb.len() > wa.len() { "wider" } else { "narrower" })
+    } else {
+        format!("{ca}→{cb}")
+    };
+    // (b) hunks at a comment: the comment machinery (write_comments / rewrite_with_comments /
+    // insert_after_span) is generic over constructs, so the key is (side, comment kind, shape)
+    let is_c = |i: isize| i >= 0 && (i as usize) < l.els.len() && l.els[i as usize].k == K::Comment;
+    if is_c(g as isize) {
+        return format!("comment-spacing|before {next}|{shape}");
+    }
+    if is_c(g as isize - 1) {
+        return format!("comment-spacing|after {prev}|{shape}");
+    }
+    let mut construct = innermost(l, g.min(l.els.len().saturating_sub(1)));
+    // a line break next to a binary operator: the construct is the operator chain itself
+    let is_op = |i: isize| -> bool {
+        i >= 0 && (i as usize) < l.els.len() && l.els[i as usize].k == K::Punct && BINOPS.contains(&l.text(i as usize))
+    };
+    if (is_op(g as isize) || is_op(g as isize - 1)) && (wa.contains('\n') || wb.contains('\n')) {
+        // operand shape: is the operand before the operator a method chain broken over lines?
+        let before = &l.src[..gap_bounds(l, g).0];
+        let line = before.lines().last().unwrap_or("").trim_start();
+        construct = if line.starts_with('.') { "binop-chain-with-method-chain-operands".into() } else { "binop-chain".into() };
+    }
+    // a comment close by (within 2 elements) is part of the input predicate
+    let near = (g as isize - 3..=g as isize + 2).any(is_c);
+    format!("{construct}{}|{prev}^{next}|{shape}", if near { "+comment-nearby" } else { "" })
+}
+
+// ---------------------------------------------------------------------------------------------
+// Syntactic slot of a comment (input predicate of the comment classes)
+
+fn chain_vec(l: &Lexed, i: usize) -> Vec<String> {
+    let mut stack: Vec<usize> = vec![];
+    for (j, e) in l.els.iter().enumerate() {
+        if j >= i {
+            break;
+        }
+        match e.k {
+            K::Open => stack.push(j),
+            K::Close => {
+                stack.pop();
+            }
+            _ => {}
+        }
+    }
+    stack.iter().map(|&o| introducer(l, o)).collect()
+}
+
+/// keyword of the top-level item that contains element i (`fn`, `use`, `mod`, …) or "" when i is
+/// after the last item. The item starts after the previous `;` / `}` at depth 0 and its keyword is
+/// the first item keyword from there (so `pub /* c */ use a;` belongs to the `use` item).
+fn top_item_keyword(l: &Lexed, i: usize) -> String {
+    let mut start = 0;
+    let upto = i.min(l.els.len());
+    for j in 0..upto {
+        let e = &l.els[j];
+        if e.depth != 0 || e.k == K::Comment {
+            continue;
+        }
+        let t = l.text(j);
+        if (e.k == K::Punct && t == ";") || (e.k == K::Close && t == "}") {
+            start = j + 1;
+        }
+    }
+    for j in start..l.els.len() {
+        let e = &l.els[j];
+        if e.depth != 0 {
+            continue;
+        }
+        let t = l.text(j);
+        if e.k == K::Ident
+            && matches!(
+                t,
+                "fn" | "struct" | "enum" | "impl" | "trait" | "abi" | "storage" | "configurable" | "use" | "const" | "mod" | "type"
+                    | "library" | "script" | "contract" | "predicate"
+            )
+        {
+            return t.to_string();
+        }
+        if (e.k == K::Punct && t == ";") || (e.k == K::Close && t == "}") {
+            break;
+        }
+    }
+    String::new()
+}
+
+/// Name the syntactic slot a comment (element `ci` of `l`) sits in. Named slots correspond to the
+/// places where swayfmt has no comment handling (nodes formatted as one leaf span, items without
+/// `rewrite_with_comments`); anything else falls back to `<construct>|<prev>^<next>`.
+pub fn comment_slot(l: &Lexed, ci: usize) -> String {
+    let mut p = ci as isize - 1;
+    while p >= 0 && l.els[p as usize].k == K::Comment {
+        p -= 1;
+    }
+    let mut q = ci + 1;
+    while q < l.els.len() && l.els[q].k == K::Comment {
+        q += 1;
+    }
+    let pt = if p >= 0 { l.text(p as usize) } else { "" };
+    let nt = if q < l.els.len() { l.text(q) } else { "" };
+    let (pa, na) = (abs_or(l, p), abs_or(l, q as isize));
+    let chain = chain_vec(l, ci);
+    let inner = chain.last().cloned().unwrap_or_default();
+    // the item keyword: for nested positions, the keyword of the outermost group's item
+    let item = if let Some(first_open) = {
+        let mut st: Vec<usize> = vec![];
+        for (j, e) in l.els.iter().enumerate() {
+            if j >= ci {
+                break;
+            }
+            match e.k {
+                K::Open => st.push(j),
+                K::Close => {
+                    st.pop();
+                }
+                _ => {}
+            }
+        }
+        st.first().copied()
+    } {
+        top_item_keyword(l, first_open)
+    } else {
+        top_item_keyword(l, ci)
+    };
+    let dbl_colon_prev = pt == ":" && p >= 1 && l.text(p as usize - 1) == ":" && l.els[p as usize - 1].joint;
+    let dbl_colon_next = nt == ":" && q + 1 < l.els.len() && l.text(q + 1) == ":" && l.els[q].joint;
+    // attribute: an enclosing `[` group introduced by `#`, or between `#`/`!` and `[`
+    let in_attr = {
+        let mut st: Vec<usize> = vec![];
+        for (j, e) in l.els.iter().enumerate() {
+            if j >= ci {
+                break;
+            }
+            match e.k {
+                K::Open => st.push(j),
+                K::Close => {
+                    st.pop();
+                }
+                _ => {}
+            }
+        }
+        st.iter().any(|&o| l.text(o) == "[" && o >= 1 && (l.text(o - 1) == "#" || l.text(o - 1) == "!"))
+            || ((pt == "#" || pt == "!") && nt == "[")
+    };
+    if in_attr {
+        return "inside-attribute".into();
+    }
+    if item == "use" {
+        return "inside-use-statement".into();
+    }
+    if item == "mod" {
+        return "inside-mod-declaration".into();
+    }
+    if matches!(item.as_str(), "library" | "script" | "contract" | "predicate") && chain.is_empty() {
+        return "inside-module-kind-declaration".into();
+    }
+    if item == "configurable" {
+        return "inside-configurable-item".into();
+    }
+    if chain.iter().any(|c| c == "asm(") {
+        return "inside-asm-register-list".into();
+    }
+    if chain.iter().any(|c| c == "asm{") {
+        return "inside-asm-body".into();
+    }
+    if pt == "asm" || (pt == ")" && nt == "{" && {
+        // `asm(...) /* c */ {`
+        let mut d = 0i32;
+        let mut j = p;
+        let mut is_asm = false;
+        while j >= 0 {
+            let t = l.text(j as usize);
+            if t == ")" {
+                d += 1;
+            } else if t == "(" {
+                d -= 1;
+                if d == 0 {
+                    is_asm = j >= 1 && l.text(j as usize - 1) == "asm";
+                    break;
+                }
+            }
+            j -= 1;
+        }
+        is_asm
+    }) {
+        return "asm-between-keyword-registers-and-body".into();
+    }
+    if dbl_colon_prev || dbl_colon_next || (pt == ":" && p >= 1 && l.els[p as usize - 1].joint && l.text(p as usize - 1) == ":") {
+        return "inside-path".into();
+    }
+    if pa == "///" {
+        return "between-doc-comment-and-item".into();
+    }
+    let type_only_ctx = matches!(inner.as_str(), "struct{" | "enum{" | "where{" | "storage{" | "abi{" | "trait{" | "impl{" | "fn(" | "(" | "[" | "");
+    if pt == "<" || nt == ">" || nt == "<" && pa == "id" && type_only_ctx || pt == ">" && (nt == ":" || nt == "(") {
+        return "inside-generic-list".into();
+    }
+    // `,` inside an angle list of an item head
+    if chain.is_empty() && (pt == "," || nt == ",") && matches!(item.as_str(), "fn" | "struct" | "enum" | "impl" | "trait" | "abi") {
+        return "inside-generic-list".into();
+    }
+    if pt == "{" && nt == "}" {
+        return format!("inside-empty-braces|{inner}");
+    }
+    if pt == "}" && nt == "else" {
+        return "between-if-block-and-else".into();
+    }
+    if (nt == ":" || pt == ":") && !inner.is_empty() {
+        return format!("around-colon|{inner}");
+    }
+    if inner == "(" {
+        return "inside-tuple-or-parenthesised-type".into();
+    }
+    if inner == "[" {
+        return "inside-array-type-or-literal".into();
+    }
+    if matches!(inner.as_str(), "call(" | "lit{" | "idx[" | "let(" | "let[" | "if(" | "abi(" | "fn(" | "fn[" | "expr{" | "match(" | "while(" | "for(" | "const(" | "const[" | "storage(") {
+        return format!("inside-expression-or-list|{inner}");
+    }
+    if nt == "," && !inner.is_empty() {
+        return format!("before-comma|{inner}");
+    }
+    if chain.is_empty() {
+        return format!("{}|{pa}^{na}", if item.is_empty() { "between-items".to_string() } else { format!("{item}-head") });
+    }
+    format!("{inner}|{pa}^{na}")
+}
+
+// ---------------------------------------------------------------------------------------------
+// The two oracles
+
+#[derive(Clone, Debug, Default)]
+pub struct Outcome {
+    /// the formatter accepted the input (pass 1 is Ok); otherwise the case is outside the quantifier
+    pub accepted: bool,
+    /// pass-1 output differs from the input (the case is non-trivial)
+    pub changed: bool,
+    /// hash of the pass-1 output
+    pub out_hash: u64,
+    /// (class key, human text)
+    pub violations: Vec<(String, String)>,
+}
+
+pub fn hash_str(s: &str) -> u64 {
+    use std::hash::{Hash, Hasher};
+    let mut h = std::collections::hash_map::DefaultHasher::new();
+    s.hash(&mut h);
+    h.finish()
+}
+
+fn first_diff_lines(a: &str, b: &str) -> String {
+    let la: Vec<&str> = a.lines().collect();
+    let lb: Vec<&str> = b.lines().collect();
+    let mut i = 0;
+    while i < la.len() && i < lb.len() && la[i] == lb[i] {
+        i += 1;
+    }
+    let f = |l: &Vec<&str>| l[i.min(l.len())..(i + 3).min(l.len())].join("⏎");
+    format!("line {}: {:?} vs {:?}", i + 1, vhcore::truncate(&f(&la), 120), vhcore::truncate(&f(&lb), 120))
+}
+
+/// Token-level classification of a formatter output that is damaged (does not lex / parse, or the
+/// second pass rejects it): reuse the C19 comparator against the input.
+fn classify_damage(x: &str, a: &str, aligned: bool) -> Vec<String> {
+    let (Some(lx), Some(la)) = (lex(x), lex(a)) else {
+        return vec!["output-unlexable".into()];
+    };
+    let (nx, na) = (normalised(&lx), normalised(&la));
+    let mut keys: Vec<String> = token_hunks(&nx, &na).iter().map(|d| classify_token_hunk(&lx, &la, &nx, d)).collect();
+    if keys.iter().any(|k| k == "token-split-by-inserted-whitespace") {
+        return vec![format!("token-split-by-inserted-whitespace|trigger={}", drift_trigger(x, a, aligned))];
+    }
+    if aligned && keys.iter().any(|k| ["struct{", "enum{", "storage{", "configurable{"].iter().any(|c| k.starts_with(c))) {
+        return vec!["field-alignment-on".into()];
+    }
+    keys.sort();
+    keys.dedup();
+    keys.truncate(3);
+    if keys.is_empty() {
+        keys.push("tokens-same".into());
+    }
+    keys
+}
+
+/// C18: whenever fmt(x) is Ok, fmt(fmt(x)) is Ok and equal to it. No panic.
+pub fn c18_check(x: &str, cfg: &Config) -> Outcome {
+    leading_ws_wrapper(x, cfg, c18_inner)
+}
+
+fn c18_inner(x: &str, cfg: &Config) -> Outcome {
+    let mut o = Outcome::default();
+    let aligned = matches!(cfg.structures.field_alignment, FieldAlignment::AlignFields(_));
+    let a = match fmt(x, cfg) {
+        FmtOut::Ok(a) => a,
+        FmtOut::Err(_) => return o,
+        FmtOut::Panic(m) => {
+            let loc = m.split('|').next().unwrap_or("").to_string();
+            o.accepted = true;
+            o.violations.push((format!("panic@{loc}|pass1"), format!("formatter panicked on the input: {m}")));
+            return o;
+        }
+    };
+    o.accepted = true;
+    o.changed = a != x;
+    o.out_hash = hash_str(&a);
+    match fmt(&a, cfg) {
+        FmtOut::Ok(b) => {
+            if a != b {
+                let what = first_diff_lines(&a, &b);
+                for k in classify_nonidempotent(x, &a, &b, aligned) {
+                    o.violations.push((k, format!("fmt(fmt(x)) != fmt(x): {what}")));
+                }
+            }
+        }
+        FmtOut::Err(e) => {
+            let keys = classify_damage(x, &a, aligned);
+            for k in keys {
+                o.violations.push((
+                    format!("pass2-rejects-pass1-output|{k}"),
+                    format!("fmt(x) is Ok but fmt(fmt(x)) is Err: {}", vhcore::truncate(&e.replace('\n', "; "), 100)),
+                ));
+            }
+        }
+        FmtOut::Panic(m) => {
+            let loc = m.split('|').next().unwrap_or("").to_string();
+            o.violations.push((format!("panic@{loc}|pass2"), format!("formatter panicked on its own output: {m}")));
+        }
+    }
+    o
+}
+
+/// Was a block comment appended to the line of a preceding `//` comment (so that the line comment
+/// now swallows it and whatever follows on that line)? `cx`/`ca` = comment texts of input/output.
+fn swallowed_by_line_comment(cx: &[String], ca: &[String], lost: &[usize], gained: &[usize]) -> bool {
+    gained.iter().any(|&j| {
+        let g = &ca[j];
+        g.starts_with("//") && lost.iter().any(|&i| g.len() > cx[i].len() && g.starts_with(cx[i].as_str()) && cx[i].starts_with("//"))
+    })
+}
+
+/// C19: fmt(x) parses, tokens(fmt(x)) ≅ tokens(x), comments(fmt(x)) == comments(x). No panic.
+pub fn c19_check(x: &str, cfg: &Config) -> Outcome {
+    leading_ws_wrapper(x, cfg, c19_inner)
+}
+
+/// Leading whitespace: the formatter builds its comment and newline maps from the *trimmed* source
+/// text but keeps the spans of the AST parsed from the untrimmed text, so every position is shifted.
+/// A violation on an input with leading whitespace that does not occur on the same input without
+/// it gets the input predicate `input-starts-with-whitespace` and is keyed by failure family only.
+fn leading_ws_wrapper(x: &str, cfg: &Config, inner: fn(&str, &Config) -> Outcome) -> Outcome {
+    let mut o = inner(x, cfg);
+    if o.violations.is_empty() || !x.starts_with(char::is_whitespace) {
+        return o;
+    }
+    let o2 = inner(x.trim_start(), cfg);
+    let keys2: Vec<&String> = o2.violations.iter().map(|(k, _)| k).collect();
+    let mut seen = std::collections::BTreeSet::new();
+    let mut v = vec![];
+    for (k, w) in o.violations.drain(..) {
+        let k = if keys2.contains(&&k) {
+            k
+        } else {
+            let fam: Vec<&str> = k.split('|').collect();
+            // `panic@file:line|pass1` keeps both parts, everything else its first component
+            let f = if fam[0].starts_with("panic@") { k.clone() } else { fam[0].to_string() };
+            format!("input-starts-with-whitespace|{f}")
+        };
+        if seen.insert(k.clone()) {
+            v.push((k, w));
+        }
+    }
+    o.violations = v;
+    o
+}
+
+fn c19_inner(x: &str, cfg: &Config) -> Outcome {
+    let mut o = Outcome::default();
+    let aligned = matches!(cfg.structures.field_alignment, FieldAlignment::AlignFields(_));
+    // The formatter trims the source for its comment and newline maps but keeps the untrimmed spans
+    // of the AST: with leading whitespace every position is shifted. One input predicate, keyed by
+    // failure family only.
+    let fam = |k: &str| -> String { k.to_string() };
+    let a = match fmt(x, cfg) {
+        FmtOut::Ok(a) => a,
+        FmtOut::Err(_) => return o,
+        FmtOut::Panic(m) => {
+            let loc = m.split('|').next().unwrap_or("").to_string();
+            o.accepted = true;
+            o.violations.push((fam(&format!("panic@{loc}")), format!("formatter panicked: {m}")));
+            return o;
+        }
+    };
+    o.accepted = true;
+    o.changed = a != x;
+    o.out_hash = hash_str(&a);
+    let Some(lx) = lex(x) else {
+        // cannot happen: the formatter lexes the same text with the same lexer
+        o.violations.push(("machinery|input-accepted-but-unlexable".into(), "lexer rejected an input the formatter accepted".into()));
+        return o;
+    };
+    let Some(la) = lex(&a) else {
+        o.violations.push((fam("output-unlexable"), format!("fmt(x) does not lex: {}", vhcore::truncate(&a, 160))));
+        return o;
+    };
+    let (nx, na) = (normalised(&lx), normalised(&la));
+    let hunks = token_hunks(&nx, &na);
+    let (cx, ca) = (lx.comments(), la.comments());
+    let (lost, gained) = if cx != ca { comment_diff(&cx, &ca) } else { (vec![], vec![]) };
+    if swallowed_by_line_comment(&cx, &ca, &lost, &gained) {
+        // everything else that differs (the swallowed comment, swallowed tokens) is a consequence
+        let what = if hunks.is_empty() { "" } else { " together with the tokens after it" };
+        o.violations.push((
+            fam("block-comment-appended-to-preceding-line-comment"),
+            format!("a block comment on its own line after a `//` comment is appended to that line and becomes part of the line comment{what}"),
+        ));
+        return o;
+    }
+    // the same with a doc comment as the swallowing line: `/// doc⏎/* c */` -> `/// doc /* c */`
+    if hunks.iter().any(|d| {
+        d.removed.len() == 1
+            && d.added.len() == 1
+            && lx.els[d.removed[0].idx].k == K::Doc
+            && la.els[d.added[0].idx].k == K::Doc
+            && d.added[0].text.starts_with(d.removed[0].text.as_str())
+            && lost.iter().any(|&i| d.added[0].text.contains(cx[i].as_str()))
+    }) {
+        o.violations.push((
+            fam("block-comment-appended-to-preceding-line-comment|doc-comment"),
+            "a block comment on its own line after a `///` doc comment is appended to that line and becomes part of the doc comment".into(),
+        ));
+        return o;
+    }
+    let mut seen = std::collections::BTreeSet::new();
+    // a token cut in two by whitespace inserted at a drifted offset: everything else in the case is
+    // a consequence of the same drift
+    if hunks.iter().any(|d| classify_token_hunk(&lx, &la, &nx, d) == "token-split-by-inserted-whitespace") {
+        o.violations.push((
+            fam(&format!("tokens|token-split-by-inserted-whitespace|trigger={}", drift_trigger(x, &a, aligned))),
+            format!("whitespace inserted in the middle of a token: {}", first_diff_lines(x, &a)),
+        ));
+        return o;
+    }
+    // `structures.field_alignment = AlignFields(n)`: the aligned code path of struct / enum /
+    // storage / configurable writes name, colon and type only ("TODO: Handle annotations instead of
+    // stripping them", swayfmt items/item_struct/mod.rs) — one input predicate per construct
+    if aligned {
+        let mut ks: Vec<String> = vec![];
+        for d in &hunks {
+            let kk = classify_token_hunk(&lx, &la, &nx, d);
+            for c in ["struct{", "enum{", "storage{", "configurable{"] {
+                if kk.starts_with(c) {
+                    ks.push(format!("tokens|field-alignment-on|{c}"));
+                }
+            }
+        }
+        ks.sort();
+        ks.dedup();
+        if !ks.is_empty() {
+            // everything else in the case (misplaced newlines cutting tokens, lost comments) follows
+            // from the stripped annotations
+            for k in ks {
+                o.violations.push((fam(&k), "with field alignment on, annotations / doc comments / storage keys of the fields are stripped".into()));
+            }
+            return o;
+        }
+    }
+    for d in &hunks {
+        let kk = classify_token_hunk(&lx, &la, &nx, d);
+        let k = fam(&format!("tokens|{kk}"));
+        if seen.len() < 4 && seen.insert(k.clone()) {
+            let r: Vec<&str> = d.removed.iter().take(8).map(|t| t.text.as_str()).collect();
+            let g: Vec<&str> = d.added.iter().take(8).map(|t| t.text.as_str()).collect();
+            o.violations.push((k, format!("token sequence changed: input has {r:?} where output has {g:?}")));
+        }
+    }
+    if cx != ca {
+        let cix = comment_idxs(&lx);
+        let cia = comment_idxs(&la);
+        let gained_txt: Vec<&String> = gained.iter().map(|&j| &ca[j]).collect();
+        for &i in lost.iter().take(4) {
+            let shape = if gained_txt.contains(&&cx[i]) { "comments-reordered" } else { "comments-lost" };
+            let k = fam(&format!("{shape}|{}", comment_slot(&lx, cix[i])));
+            if seen.insert(k.clone()) {
+                o.violations.push((k, format!("comment {:?} of the input is missing from / moved in the output", vhcore::truncate(&cx[i], 60))));
+            }
+        }
+        let lost_txt: Vec<&String> = lost.iter().map(|&i| &cx[i]).collect();
+        for &j in gained.iter().take(4) {
+            if lost_txt.contains(&&ca[j]) {
+                continue; // reported as reordered
+            }
+            let k = fam(&format!("comments-gained|{}", comment_slot(&la, cia[j])));
+            if seen.insert(k.clone()) {
+                o.violations.push((k, format!("output has comment {:?} that the input has not (duplicated or altered)", vhcore::truncate(&ca[j], 60))));
+            }
+        }
+    }
+    if hunks.is_empty() && !parses(&a) {
+        // same tokens but unparseable can only be a spacing change that glues/splits operators
+        o.violations.push((fam("output-unparseable|tokens-same"), format!("fmt(x) does not parse: {}", vhcore::truncate(&a, 160))));
+    }
+    o
+}
+
+// ---------------------------------------------------------------------------------------------
+// The declared space and its driver
+
+#[derive(Clone, Debug)]
+pub struct Base {
+    /// `corpus:<path>` or `gen:<family>/<n>`
+    pub name: String,
+    pub text: String,
+}
+
+#[derive(Clone, Debug, Default)]
+pub struct BaseResult {
+    pub evaluations: u64,
+    pub accepted: u64,
+    pub rejected_by_formatter: u64,
+    pub changed: u64,
+    pub distinct_outputs: u64,
+    /// per family of deviation: number of cases
+    pub by_family: BTreeMap<String, u64>,
+    pub ws_rejected_merges: u64,
+    /// key -> (count, shortest input, config, variant description, human text)
+    pub viol: BTreeMap<String, (u64, String, String, String, String)>,
+    pub mutated: bool,
+    pub paired: bool,
+}
+
+pub struct Plan {
+    pub thorough: bool,
+    pub max_tokens_mutation: usize,
+    pub max_tokens_pairs: usize,
+}
+
+/// Which configurations / menus apply to which family of deviation in each tier. The quick tier is
+/// a declared sub-space of the thorough one (see `describe`).
+impl Plan {
+    pub fn new(thorough: bool) -> Plan {
+        Plan {
+            thorough,
+            max_tokens_mutation: 120,
+            max_tokens_pairs: 30,
+        }
+    }
+}
+
+/// Run every case derived from one base through `check` and aggregate.
+pub fn run_base<F: Fn(&str, &Config) -> Outcome>(
+    base: &Base,
+    plan: &Plan,
+    cfgs: &[(&'static str, Config)],
+    slice: &BaseSlice,
+    check: &F,
+) -> BaseResult {
+    let mut r = BaseResult::default();
+    let mut outs = std::collections::HashSet::new();
+    let mut one = |r: &mut BaseResult, fam: &str, text: &str, what: &str, cname: &str, cfg: &Config| {
+        let o = check(text, cfg);
+        r.evaluations += 1;
+        *r.by_family.entry(fam.to_string()).or_insert(0) += 1;
+        if !o.accepted {
+            r.rejected_by_formatter += 1;
+            return;
+        }
+        r.accepted += 1;
+        if o.changed {
+            r.changed += 1;
+            outs.insert(o.out_hash);
+        }
+        for (k, human) in o.violations {
+            let e = r.viol.entry(k).or_insert((0, text.to_string(), cname.to_string(), what.to_string(), human.clone()));
+            e.0 += 1;
+            if text.len() < e.1.len() {
+                *e = (e.0, text.to_string(), cname.to_string(), what.to_string(), human);
+            }
+        }
+    };
+    // (1)/(2) the base itself under every configuration
+    for (cname, cfg) in cfgs {
+        one(&mut r, "base", &base.text, "as is", cname, cfg);
+    }
+    if !slice.mutate {
+        r.distinct_outputs = outs.len() as u64;
+        return r;
+    }
+    let Some(l) = lex(&base.text) else {
+        r.distinct_outputs = outs.len() as u64;
+        return r;
+    };
+    if l.n_tokens() == 0 || l.n_tokens() > plan.max_tokens_mutation || !l.gaps_are_whitespace() {
+        r.distinct_outputs = outs.len() as u64;
+        return r;
+    }
+    r.mutated = true;
+    let var_cfgs: Vec<&(&'static str, Config)> = cfgs.iter().filter(|(n, _)| slice.variant_cfgs.contains(n)).collect();
+    // (3) one comment at every gap
+    let menu = comment_menu();
+    for g in 0..n_gaps(&l) {
+        for (mi, (b, c, a)) in menu.iter().enumerate() {
+            if !slice.comment_menu.contains(&mi) {
+                continue;
+            }
+            let text = with_gap(&l, g, &format!("{b}{c}{a}"));
+            let what = format!("comment at gap {g}: {:?}", format!("{b}{c}{a}"));
+            for (cname, cfg) in &var_cfgs {
+                one(&mut r, "comment", &text, &what, cname, cfg);
+            }
+        }
+    }
+    // (4) whitespace of every gap
+    let sig = l.sig();
+    for g in 0..n_gaps(&l) {
+        let (s, e) = gap_bounds(&l, g);
+        for w in WS_MENU {
+            if &l.src[s..e] == w {
+                continue;
+            }
+            let text = with_gap(&l, g, w);
+            if !w.contains('\n') {
+                match lex(&text) {
+                    Some(l2) if l2.sig() == sig => {}
+                    _ => {
+                        r.ws_rejected_merges += 1;
+                        continue;
+                    }
+                }
+            }
+            let what = format!("whitespace of gap {g} := {w:?}");
+            for (cname, cfg) in &var_cfgs {
+                one(&mut r, "whitespace", &text, &what, cname, cfg);
+            }
+        }
+    }
+    // (3b) ordered pairs of comments
+    if slice.pairs && l.n_tokens() <= plan.max_tokens_pairs {
+        r.paired = true;
+        let m = pair_menu();
+        let (cname, cfg) = &cfgs[0];
+        for g1 in 0..n_gaps(&l) {
+            for g2 in g1..n_gaps(&l) {
+                for (b1, c1, a1) in &m {
+                    for (b2, c2, a2) in &m {
+                        let c2 = c2.replace('c', "e");
+                        let (t1, t2) = (format!("{b1}{c1}{a1}"), format!("{b2}{c2}{a2}"));
+                        let text = with_gaps2(&l, g1, &t1, g2, &t2);
+                        let what = format!("comments at gaps {g1},{g2}: {t1:?} {t2:?}");
+                        one(&mut r, "comment-pair", &text, &what, cname, cfg);
+                    }
+                }
+            }
+        }
+    }
+    r.distinct_outputs = outs.len() as u64;
+    r
+}
+
+/// What is explored for one base in the current tier.
+#[derive(Clone, Debug)]
+pub struct BaseSlice {
+    pub mutate: bool,
+    /// indices into `comment_menu()`
+    pub comment_menu: Vec<usize>,
+    pub variant_cfgs: Vec<&'static str>,
+    pub pairs: bool,
+}
+
+/// All bases: every `.sw` file of the repository, then the item grammar.
+pub fn bases() -> (Vec<Base>, usize, usize, usize) {
+    let mut v = vec![];
+    let root = vhcore::repo_root();
+    let mut unreadable = 0;
+    for p in vhcore::corpus_sw_files() {
+        match std::fs::read_to_string(&p) {
+            Ok(text) => {
+                let rel = p.strip_prefix(&root).unwrap_or(&p).display().to_string();
+                v.push(Base {
+                    name: format!("corpus:{rel}"),
+                    text,
+                });
+            }
+            Err(_) => unreadable += 1,
+        }
+    }
+    let n_corpus = v.len();
+    let (g, closed) = generated();
+    if g.len() != closed {
+        vhcore::machinery_failure(&format!("item grammar produced {} sources, closed form says {closed}", g.len()));
+    }
+    let n_gen = g.len();
+    for s in g {
+        v.push(Base {
+            name: format!("gen:{}", s.name),
+            text: s.text,
+        });
+    }
+    (v, n_corpus, n_gen, unreadable)
+}
+
+/// indices into comment_menu() used by the quick tier: block comment inline and on its own line,
+/// line comment trailing and on its own line, doc comment on its own line
+pub fn quick_comment_menu() -> Vec<usize> {
+    let m = comment_menu();
+    let want = [
+        (" ", "/* c */", " "),
+        ("\n", "/* c */", "\n"),
+        (" ", "// c", "\n"),
+        ("\n", "// c", "\n"),
+        ("\n", "/// d", "\n"),
+    ];
+    (0..m.len()).filter(|&i| want.contains(&m[i])).collect()
+}
+
+/// The slice of the space explored for base `b` in the given tier.
+pub fn slice_for(b: &Base, thorough: bool) -> BaseSlice {
+    let all_cfgs: Vec<&'static str> = configs().iter().map(|(n, _)| *n).collect();
+    if thorough {
+        let big_family = b.name.starts_with("gen:ladder") || b.name.starts_with("gen:fnbody2");
+        return BaseSlice {
+            mutate: true,
+            comment_menu: (0..comment_menu().len()).collect(),
+            // the statement-pair family (1728 sources of ~50 tokens) gets its deviations under the
+            // default configuration only
+            variant_cfgs: if b.name.starts_with("gen:fnbody2") { vec!["default"] } else { all_cfgs },
+            pairs: !big_family,
+        };
+    }
+    // quick: generated sources of the structural families (not the statement pairs / ladders, whose
+    // bases still run under all configurations) and corpus files; reduced menu; default config and
+    // max_width=40
+    let mutate = !(b.name.starts_with("gen:ladder") || b.name.starts_with("gen:fnbody2") || b.name.starts_with("gen:pair"));
+    BaseSlice {
+        mutate,
+        comment_menu: quick_comment_menu(),
+        variant_cfgs: vec!["default"],
+        pairs: false,
+    }
+}
+
+pub fn run_check<F: Fn(&str, &Config) -> Outcome + Sync>(a: &vhcore::Args, oracle: &str, check: F) -> i32 {
+    let thorough = a.tier == vhcore::Tier::Thorough;
+    let mut rep = vhcore::Reporter::from_args(a, "exploration");
+    // not vhcore::work_dir(): that would wipe the fix-<n>.patch files kept in the same directory
+    let _ = std::fs::create_dir_all(vhcore::verif_root().join("work").join(&a.id));
+    let (bs, n_corpus, n_gen, unreadable) = bases();
+    let cfgs = configs();
+    let mut plan = Plan::new(thorough);
+    if !thorough {
+        plan.max_tokens_mutation = quick_max_tokens();
+    }
+    let t0 = std::time::Instant::now();
+    // big files first so that the tail of the parallel map is short
+    let mut order: Vec<usize> = (0..bs.len()).collect();
+    order.sort_by_key(|&i| std::cmp::Reverse(bs[i].text.len().min(20_000) + if bs[i].text.len() < 4000 { 20_000 } else { 0 }));
+    let results = vhcore::par_map_idx(order.len(), a.jobs, |k| {
+        let b = &bs[order[k]];
+        let sl = slice_for(b, thorough);
+        run_base(b, &plan, &cfgs, &sl, &check)
+    });
+    let mut tot = BaseResult::default();
+    let mut corpus_rejected_files = 0u64;
+    let mut mutated_corpus = 0u64;
+    let mut mutated_gen = 0u64;
+    let mut paired = 0u64;
+    let mut viol: BTreeMap<String, (u64, String, String, String, String, String)> = BTreeMap::new();
+    for (k, r) in results.iter().enumerate() {
+        let b = &bs[order[k]];
+        tot.evaluations += r.evaluations;
+        tot.accepted += r.accepted;
+        tot.rejected_by_formatter += r.rejected_by_formatter;
+        tot.changed += r.changed;
+        tot.distinct_outputs += r.distinct_outputs;
+        tot.ws_rejected_merges += r.ws_rejected_merges;
+        for (f, n) in &r.by_family {
+            *tot.by_family.entry(f.clone()).or_insert(0) += n;
+        }
+        if b.name.starts_with("corpus:") {
+            // rejected under the default configuration == unparseable negative test
+            if r.by_family.get("base").copied().unwrap_or(0) > 0 && r.accepted == 0 {
+                corpus_rejected_files += 1;
+            }
+            if r.mutated {
+                mutated_corpus += 1;
+            }
+        } else if r.mutated {
+            mutated_gen += 1;
+        }
+        if r.paired {
+            paired += 1;
+        }
+        for (key, (n, text, cname, what, human)) in &r.viol {
+            let e = viol
+                .entry(key.clone())
+                .or_insert((0, text.clone(), cname.clone(), what.clone(), human.clone(), b.name.clone()));
+            e.0 += n;
+            if text.len() < e.1.len() {
+                *e = (e.0, text.clone(), cname.clone(), what.clone(), human.clone(), b.name.clone());
+            }
+        }
+    }
+    // vacuity guards
+    if tot.accepted < 2 || tot.distinct_outputs < 2 || n_corpus < 100 {
+        vhcore::machinery_failure(&format!(
+            "vacuous run: accepted={} distinct_outputs={} corpus_files={n_corpus}",
+            tot.accepted, tot.distinct_outputs
+        ));
+    }
+    // full list of classes with their smallest reproducer (the reporter caps replay files at 25)
+    let classes: Vec<serde_json::Value> = viol
+        .iter()
+        .map(|(k, (n, text, cname, what, human, origin))| {
+            let out = match config_by_name(cname).map(|c| fmt(text, &c)) {
+                Some(FmtOut::Ok(o)) => o,
+                o => format!("{o:?}"),
+            };
+            serde_json::json!({"key": k, "cases": n, "config": cname, "input": text, "origin": origin, "variant": what, "what": human,
+                "known": rep.is_known(k), "output": out})
+        })
+        .collect();
+    let _ = std::fs::write(
+        vhcore::verif_root().join("work").join(&a.id).join("classes.json"),
+        serde_json::to_string_pretty(&classes).unwrap_or_default(),
+    );
+    for (key, (n, text, cname, what, human, origin)) in &viol {
+        let what_txt = format!("{human} [{n} cases; smallest: {origin}, {what}, config {cname}]");
+        rep.violation(
+            key,
+            &what_txt,
+            serde_json::json!({"config": cname, "input": text, "origin": origin, "variant": what, "cases": n}),
+        );
+    }
+    rep.set("evaluations", tot.evaluations);
+    rep.set("accepted_by_formatter", tot.accepted);
+    rep.set("rejected_by_formatter_skipped", tot.rejected_by_formatter);
+    rep.set("distinct_nontrivial", tot.distinct_outputs);
+    rep.set(
+        "rule",
+        "distinct formatter outputs fmt(x) with fmt(x) != x, counted per base text and summed over bases",
+    );
+    rep.set("cases_where_formatter_changed_the_text", tot.changed);
+    rep.set("corpus_files", n_corpus as u64);
+    rep.set("corpus_files_unreadable_not_utf8", unreadable as u64);
+    rep.set("corpus_files_rejected_by_formatter_all_configs", corpus_rejected_files);
+    rep.set("generated_sources", n_gen as u64);
+    rep.set("corpus_files_mutated", mutated_corpus);
+    rep.set("generated_sources_mutated", mutated_gen);
+    rep.set("bases_with_comment_pairs", paired);
+    rep.set("whitespace_variants_rejected_because_tokens_merge", tot.ws_rejected_merges);
+    rep.set("cases_by_family", serde_json::json!(tot.by_family));
+    rep.set("configurations", serde_json::json!(cfgs.iter().map(|(n, _)| *n).collect::<Vec<_>>()));
+    rep.set("oracle", oracle);
+    rep.set("violation_classes", serde_json::json!(viol.iter().map(|(k, v)| serde_json::json!({"key": k, "cases": v.0})).collect::<Vec<_>>()));
+    rep.set("exhaustive", true);
+    rep.set(
+        "space",
+        if thorough {
+            "every .sw file of the repo and every source of the item grammar under 5 configurations; for every generated source and every corpus file with <= 120 tokens: each of 21 comment insertions (block/line/doc comment x {0,1,2} newlines before x {0,1,2} (block) or {1,2} (line, doc) newlines after) at every token boundary and each whitespace replacement in {\"\",\" \",\"\\n\",\"\\n\\n\\n\"} of every inter-token gap, one at a time, under 5 configurations (the 1728 statement-pair sources `fnbody2`: default configuration only); for bases with <= 30 tokens (except the ladder and statement-pair families) every ordered pair of insertions from a 3-entry menu at gaps g1 <= g2 under the default configuration"
+        } else {
+            "every .sw file of the repo and every source of the item grammar under 5 configurations; for every generated source of the structural families (not ladders / statement pairs / item pairs) and every corpus file with <= 40 tokens: 5 comment insertions at every token boundary and 4 whitespace replacements of every gap, under the default configuration"
+        },
+    );
+    for (k, r) in results.iter().enumerate().take(4) {
+        rep.sample(serde_json::json!({"base": bs[order[k]].name, "cases": r.evaluations, "accepted": r.accepted}));
+    }
+    for b in bs.iter().filter(|b| b.name.starts_with("gen:")).step_by(997).take(6) {
+        rep.sample(serde_json::json!({"base": b.name, "text": b.text}));
+    }
+    rep.assume("the formatter is driven exactly like forc-fmt does: Formatter{config,..default}.format(src) with default ExperimentalFeatures");
+    rep.assume("inputs on which Formatter::format returns Err (unparseable sources, doc comments at illegal places) are outside the quantifier and only counted");
+    eprintln!("explored in {:.1}s", t0.elapsed().as_secs_f64());
+    rep.finish()
+}
+
+pub fn quick_max_tokens() -> usize {
+    40
+}
+
+pub fn replay<F: Fn(&str, &Config) -> Outcome>(a: &vhcore::Args, check: F) -> i32 {
+    let Some(p) = &a.replay else { vhcore::machinery_failure("replay: path missing") };
+    let Ok(txt) = std::fs::read_to_string(p) else { vhcore::machinery_failure("replay: cannot read file") };
+    let Ok(v) = serde_json::from_str::<serde_json::Value>(&txt) else { vhcore::machinery_failure("replay: not JSON") };
+    let r = &v["replay"];
+    let (Some(input), Some(cname)) = (r["input"].as_str(), r["config"].as_str()) else {
+        vhcore::machinery_failure("replay: missing input/config")
+    };
+    let Some(cfg) = config_by_name(cname) else { vhcore::machinery_failure("replay: unknown config") };
+    println!("config: {cname}\n--- input\n{input}");
+    match fmt(input, &cfg) {
+        FmtOut::Ok(f1) => {
+            println!("--- fmt(x)\n{f1}");
+            match fmt(&f1, &cfg) {
+                FmtOut::Ok(f2) if f2 == f1 => println!("--- fmt(fmt(x)) == fmt(x)"),
+                FmtOut::Ok(f2) => println!("--- fmt(fmt(x))\n{f2}"),
+                o => println!("--- fmt(fmt(x)): {o:?}"),
+            }
+        }
+        o => println!("--- fmt(x): {o:?}"),
+    }
+    let o = check(input, &cfg);
+    if o.violations.is_empty() {
+        println!("no violation on this input");
+        0
+    } else {
+        for (k, w) in &o.violations {
+            println!("VIOLATES key={k} {w}");
+        }
+        1
+    }
 }
